@@ -44,6 +44,20 @@ pub(super) fn adopt(accept: Accept, sockets: Box<[ServerSocketInfo]>) -> thread:
     handle
 }
 
+pub(super) fn view_point(accept: &Accept) -> crate::verif::Point {
+    let handles: Vec<usize> = accept.handles.iter().map(|h| h.idx()).collect();
+    let avail = handles
+        .iter()
+        .map(|idx| accept.avail.get_available(*idx))
+        .collect();
+
+    crate::verif::Point::AcceptOneIter {
+        handles,
+        avail,
+        next: accept.next,
+    }
+}
+
 pub(crate) fn peer_of(io: &MioStream) -> String {
     match io {
         MioStream::Tcp(s) => s
